@@ -116,6 +116,7 @@ def run(chk: Check, proj: Project) -> None:
     s1m_locks(chk, proj, w, reach)
     s1a_publication(chk, proj, w, reach)
     s1a_nodes(chk, proj, w, reach)
+    s1a_reentrant(chk, proj, w)
     chk.call_sites = w.cg.n_calls
 
 
@@ -423,6 +424,97 @@ def s1a_publication(chk: Check, proj: Project, w, reach) -> None:
                 else:
                     chk.holds("S1-A1", key, m.loc(stores[-1]), f"`{obj}.{attr}` is the last write of the initialisation on every path")
     chk.floor("S1-A1", n, 3)
+
+
+def s1a_reentrant(chk: Check, proj: Project, w) -> None:
+    chk.rule("S1-A3", "the unserialised lazy resolution of a class's assets is idempotent under re-entry: a helper whose result is stored into a field of the shared record never raises because that same field is already set")
+    m, f = proj.func("component_media", "_resolve_media")
+    chk.analysed(fkey(m, f))
+    rec = params(f)[1]
+    n = 0
+    # stores `rec.F = g(..., rec, ..., kw=<const>)`
+    by_callee: Dict[str, List[Tuple[str, ast.Call]]] = {}
+    for st in stmts(f):
+        if isinstance(st, ast.Assign) and isinstance(st.value, ast.Call) and isinstance(st.targets[0], ast.Attribute) and norm(st.targets[0].value) == rec:
+            r0 = w.cg.resolve_callee(m, st.value, st.value.func)
+            if r0 is not None and isinstance(r0[1], ast.FunctionDef) and fkey(*r0) in w.cg.funcs:
+                by_callee.setdefault(fkey(*r0), []).append((st.targets[0].attr, st.value))
+    for tk, outs in sorted(by_callee.items()):
+        gm, g = w.cg.funcs[tk]
+        gp = params(g)
+        n += 1
+        chk.analysed(tk)
+        out_fields = {a for a, _c in outs}
+        # parameter -> set of constant strings it is bound to at these call sites; which param is the record
+        bind: Dict[str, Set[str]] = {}
+        recp = None
+        for _a, c in outs:
+            for i, a in enumerate(c.args):
+                if i < len(gp):
+                    if norm(a) == rec:
+                        recp = gp[i]
+                    elif isinstance(a, ast.Constant) and isinstance(a.value, str):
+                        bind.setdefault(gp[i], set()).add(a.value)
+            for k in c.keywords:
+                if k.arg and norm(k.value) == rec:
+                    recp = k.arg
+                elif k.arg and isinstance(k.value, ast.Constant) and isinstance(k.value.value, str):
+                    bind.setdefault(k.arg, set()).add(k.value.value)
+        if recp is None:
+            chk.holds("S1-A3", f"{tk.replace('django_components.', '')}:reentrant", gm.loc(g), "the helper does not receive the shared record")
+            continue
+
+        def fields_of(e: ast.AST) -> Set[str]:
+            out: Set[str] = set()
+            for y in ast.walk(e):
+                if isinstance(y, ast.Attribute) and norm(y.value) == recp:
+                    out.add(y.attr)
+                if isinstance(y, ast.Call) and norm(y.func) == "getattr" and len(y.args) >= 2 and norm(y.args[0]) == recp:
+                    a1 = y.args[1]
+                    if isinstance(a1, ast.Constant):
+                        out.add(str(a1.value))
+                    elif isinstance(a1, ast.Name):
+                        out |= bind.get(a1.id, {"?"})
+                    else:
+                        out.add("?")
+            return out
+
+        var_fields: Dict[str, Set[str]] = {}
+        for st in stmts(g):
+            if isinstance(st, ast.Assign) and len(st.targets) == 1 and isinstance(st.targets[0], ast.Name):
+                fs = fields_of(st.value)
+                if fs:
+                    var_fields.setdefault(st.targets[0].id, set()).update(fs)
+        bad = None
+        for r in stmts(g):
+            if not isinstance(r, ast.Raise):
+                continue
+            for t, pol in cond_atoms(r):
+                try:
+                    e = ast.parse(t, mode="eval").body
+                except SyntaxError:
+                    continue
+                # state after the write: the field is set (`x is not None`, truthy `x`)
+                setpol = None
+                subj = e
+                if isinstance(e, ast.Compare) and len(e.ops) == 1 and isinstance(e.comparators[0], ast.Constant) and e.comparators[0].value is None:
+                    subj = e.left
+                    setpol = pol if isinstance(e.ops[0], ast.IsNot) else (not pol) if isinstance(e.ops[0], ast.Is) else None
+                elif isinstance(e, (ast.Name, ast.Attribute, ast.Call)):
+                    setpol = pol
+                if not setpol:
+                    continue
+                fs = fields_of(subj) | (var_fields.get(subj.id, set()) if isinstance(subj, ast.Name) else set())
+                hit = (fs & out_fields) or ({"?"} & fs)
+                if hit:
+                    bad = (r, t, sorted(hit))
+        key = f"{tk.replace('django_components.', '')}:no-raise-on-own-output"
+        if bad:
+            r, t, hit = bad
+            chk.violated("S1-A3", key, gm.loc(r), f"`{short(r)}` is raised when `{t}` holds, i.e. when field(s) {hit} of the shared record are already set - but _resolve_media stores this helper's own result into {sorted(out_fields)} and is not serialised: a second thread entering the resolution before `resolved = True` raises instead of rendering")
+        else:
+            chk.holds("S1-A3", key, gm.loc(g), f"no raise in the helper is conditional on {sorted(out_fields)} being set (re-entry recomputes the same value)")
+    chk.floor("S1-A3", n, 1)
 
 
 def s1a_nodes(chk: Check, proj: Project, w, reach) -> None:
